@@ -37,8 +37,10 @@ def py_escape(p):
             out.append(c)
     return bytes(out)
 
-def py_md_write(target, paths, sep):
-    return py_escape(target) + b":" + b"".join(SEPS[sep] + py_escape(p) for p in paths) + b"\n"
+EOLS = [b"\n", b"\r\n", b""]
+
+def py_md_write(target, paths, sep, eol=0):
+    return py_escape(target) + b":" + b"".join(SEPS[sep] + py_escape(p) for p in paths) + EOLS[eol]
 
 def py_di_write(version, recs):
     return b"\0" + version + b"\0" + b"".join(bytes([DI_OP[k]]) + s + b"\0" for (k, s) in recs)
@@ -350,16 +352,23 @@ def writer_part(chk):
             if rng.random() < 0.25:      # interior / trailing colons
                 paths.append(rnd_path(rng, True) + b":" + (rnd_path(rng, True) if rng.random() < 0.7 else b""))
             rules.append((rnd_path(rng, True), paths, rng.randrange(3)))
-        cases.append((rules, b"".join(py_md_write(t, ps, sp) for (t, ps, sp) in rules)))
+        # line ends: LF mostly, CRLF sometimes; the last rule may end with the file
+        eols = [rng.choice([0, 0, 0, 1]) for _ in rules]
+        if rng.random() < 0.15:
+            eols[-1] = 2
+        cases.append((rules, b"".join(py_md_write(t, ps, sp, e) for (t, ps, sp), e in zip(rules, eols)), eols))
     # the writer of the model is the one the theorems are about: it must be the documented one
-    wreq = ["md_write %s %s %d" % (hx(t), fl(ps), sp) for (rules, d) in cases[:600] for (t, ps, sp) in rules[:1]]
+    wreq = ["md_write_eol %s %s %d %d" % (hx(r[0][0]), fl(r[0][1]), r[0][2], e[0]) for (r, d, e) in cases[:600]] + \
+           ["md_write %s %s %d" % (hx(r[0][0]), fl(r[0][1]), r[0][2]) for (r, d, e) in cases[:600]]
     rc, wout, werr = vlib.run_lines(s.model, wreq)
-    for (rules, d), w in zip(cases[:600], wout):
+    for ((rules, d, eols), w, w0) in zip(cases[:600], wout[:600], wout[600:]):
         t, ps, sp = rules[0]
-        if unhx(w) != py_md_write(t, ps, sp):
-            chk.violation("writer-correspondence", "Parse.MakeDeps.md_write differs from the documented escaping computed by the harness",
-                          dict(target=repr(t), paths=repr(ps), sep=sp, model=w, harness=hx(py_md_write(t, ps, sp))), found_input=False, broken="correspondence: Parse.MakeDeps.md_write")
+        if unhx(w) != py_md_write(t, ps, sp, eols[0]) or unhx(w0) != py_md_write(t, ps, sp):
+            chk.violation("writer-correspondence", "Parse.MakeDeps.md_write / md_write_eol differ from the documented escaping computed by the harness",
+                          dict(target=repr(t), paths=repr(ps), sep=sp, eol=eols[0], model=w, model_lf=w0, harness=hx(py_md_write(t, ps, sp, eols[0]))), found_input=False,
+                          broken="correspondence: Parse.MakeDeps.md_write")
             break
+    cases = [(r, d) for (r, d, e) in cases]
     reqs, ds = requests_for([d for (r, d) in cases], "md")
     ans = differential(chk, "writer-outputs", reqs, ds)
     for k, (rules, d) in enumerate(cases):
@@ -542,15 +551,19 @@ commands:
 NAMES = [b"h d", b"h#d", b"h$d", b"h\\d", b"h:d", b"h'\"d", b"\x80\xff", b"h:", b" h", b"$", b"#h", b"h\\", b"$$h", b"h d#e$f\\g:i",
          b"./h", b"d/../h", b"d//h", b"h.h"]
 STYLES = ["makefile", "dependency-info"]
+ALL_STYLES = STYLES + ["makefile-ignoring-subsequent-outputs"]
 MODES = ["relative", "absolute", "relative-wd", "absolute-wd"]
 EVENTS = ["modify", "delete", "create", "none"]
 
 def deps_file(style, spelled, variant):
     """the dependency file the command's script produces, naming `spelled`"""
+    if style == "makefile-ignoring-subsequent-outputs":   # only the first rule counts: the path is in it
+        return py_md_write(b"out", ([b"/nonexistent-c11/x y"] if variant % 2 else []) + [spelled], variant % 3, (variant // 3) % 2) + \
+               py_md_write(b"second", [b"/nonexistent-c11/other"], 0)
     if style == "makefile":
         if variant % 4 == 3:     # the path in the second of two rules, after a rule with another prerequisite
-            return py_md_write(b"first", [b"/nonexistent-c11/other"], 0) + py_md_write(b"out put", [spelled], 1)
-        return py_md_write(b"out", ([b"/nonexistent-c11/x y"] if variant % 2 else []) + [spelled], variant % 3)
+            return py_md_write(b"first", [b"/nonexistent-c11/other"], 0, (variant // 4) % 2) + py_md_write(b"out put", [spelled], 1, (variant // 8) % 3)
+        return py_md_write(b"out", ([b"/nonexistent-c11/x y"] if variant % 2 else []) + [spelled], variant % 3, (variant // 3) % 3)
     return py_di_write(b"c11", ([("O", b"out"), ("M", b"/nonexistent-c11/m")] if variant % 2 else []) + [("I", spelled)])
 
 def cli_scenario(chk, llb, S, style, name, mode, event, variant, malformed=None):
@@ -581,7 +594,7 @@ def cli_scenario(chk, llb, S, style, name, mode, event, variant, malformed=None)
               oracle="executions of the command counted through its side-effect file, judged by the harness without the model")
     # what the glue model (Parse/DepsGlue.v) says about this file: the keys and the success flag
     mwd = os.path.join(S, wd).encode() if wd else b""
-    rcm, mo, me = vlib.run_lines(sides(chk).model, ["process %d %s %s %s" % (1 if style == "makefile" else 2, hx(S.encode()), hx(mwd), hx(data))])
+    rcm, mo, me = vlib.run_lines(sides(chk).model, ["process %d %s %s %s" % ({"makefile": 1, "dependency-info": 2, "makefile-ignoring-subsequent-outputs": 3}[style], hx(S.encode()), hx(mwd), hx(data))])
     mok, mkeys = mo[0].split(" ")[0] == "1", [unhx(x) for x in mo[0].split(" ")[1].split(",")] if mo[0].split(" ")[1] != "." else []
     norm = lambda k: os.path.normpath(os.path.join(S.encode(), k))
     rp["model"] = dict(succeeds=mok, keys=[repr(k) for k in mkeys], tracks_the_path=norm(P) in [norm(k) for k in mkeys])
@@ -642,10 +655,12 @@ def cli_part(chk):
                     scen.append((style, NAMES[i % len(NAMES)], mode, event, i))
                     i += 1
         scen.append(("makefile", NAMES[13], "relative", "none", 1))
+        scen.append(("makefile-ignoring-subsequent-outputs", NAMES[13], "relative-wd", "modify", 4))
+        scen.append(("makefile-ignoring-subsequent-outputs", NAMES[4], "absolute", "create", 3))
         scen.append(("dependency-info", NAMES[13], "absolute-wd", "none", 0))
     else:
         i = 0
-        for style in STYLES:
+        for style in ALL_STYLES:
             for name in NAMES:
                 for mode in MODES:
                     for event in EVENTS:
@@ -654,7 +669,7 @@ def cli_part(chk):
     builds = ok = 0
     mism = []
     for k, (style, name, mode, event, variant) in enumerate(scen):
-        if style == "makefile" and name.startswith(b":"):
+        if style.startswith("makefile") and name.startswith(b":"):
             continue
         S = os.path.join(base, "s%d" % k)
         key, what, rp = cli_scenario(chk, llb, S, style, name, mode, event, variant)
